@@ -2,6 +2,8 @@
 // The real parallel code runs on vomp's team of real threads of which one runs at a time; ALL schedules up to a preemption bound are
 // enumerated (stateless DFS with state-hash pruning) and every complete execution is compared with the single-threaded reference.
 // Builds: plain (functional oracle), asan (no invalid access under any schedule), tsan (no data race report under any schedule).
+#include <sys/wait.h>
+#include <unistd.h>
 #include "solver_world.hpp"
 #include "vomp/selftest.hpp"
 #include "contact_common.hpp"
@@ -118,6 +120,26 @@ static std::string scenario_solver_division(int ready_mask) {
     return d;
 }
 
+
+// ------------------------------------------------------------------------------------------------ (h) cell types that differ in which forces they switch on
+// Non-interacting cells of two types: one with every bending modulus zero (the bending force returns early), one with non-zero moduli; both orders in the list.  Run with every execution in
+// its own process: whatever the force code remembers process-wide from the first cell it happens to serve (a function-local static, a lazily built table) is then decided by the schedule.
+static std::string scenario_mixed_types(int order, int iters) {
+    simucell3d_verif::g_base_seed = 4242; simucell3d_verif::reset_rng_counters(); srand(1);
+    std::vector<sw::CellSpec> cs; sc::Mesh ico = sc::icosphere(1);
+    for (int i = 0; i < 2; i++) { const bool stiff = ((i + order) & 1) != 0; auto ty = sc::make_cell_type(0, 3); ty->bulk_modulus_ = 5; ty->avg_growth_rate_ = 10; ty->area_elasticity_modulus_ = stiff ? 0.0 : 0.2; ty->angle_regularization_factor_ = stiff ? 0.0 : 0.05;
+        for (auto& f : ty->face_types_) { f.surface_tension_ = 0.3; f.bending_modulus_ = stiff ? 0.05 : 0.0; } cs.push_back({sc::translated(sc::scaled(ico, 1.25, 1, 0.85), 6.0 * i, 0.5, -0.25), ty}); }
+    global_simulation_parameters p = sc::make_sim_params(sw::scratch_root() + "/c15h", 0.2); p.time_step_ = 2e-3; p.sampling_period_ = 1e9; p.simulation_duration_ = 1e9;
+    std::string key; { sw::World W(cs, p); g_cur_solver = W.s.get(); for (int i = 0; i < iters; i++) W.s->run_iteration(); g_cur_solver = nullptr; key = sw::canon_world(*W.s); }
+    char b[40]; snprintf(b, sizeof b, "%016lx", (unsigned long)sc::fnv(key)); return b;
+}
+// runs f in a forked child and returns its string ("CRASHED ..." if the child does not report)
+static std::string isolated_call(const std::function<std::string()>& f) {
+    int fd[2]; if (pipe(fd) != 0) return "INTERNAL pipe"; fflush(nullptr); pid_t pid = fork();
+    if (pid == 0) { close(fd[0]); std::string o = f(); o += '\x01'; for (size_t off = 0; off < o.size();) { ssize_t w = write(fd[1], o.data() + off, o.size() - off); if (w <= 0) _exit(3); off += (size_t)w; } _exit(0); }
+    close(fd[1]); std::string buf; char tmp[4096]; for (;;) { ssize_t r = read(fd[0], tmp, sizeof tmp); if (r > 0) buf.append(tmp, (size_t)r); else if (r == 0) break; else if (errno != EINTR) break; } close(fd[0]); int st = 0; while (waitpid(pid, &st, 0) < 0 && errno == EINTR) {}
+    if (buf.empty() || buf.back() != '\x01' || !WIFEXITED(st) || WEXITSTATUS(st) != 0) return "CRASHED: the single-threaded run ended with " + (WIFSIGNALED(st) ? "signal " + std::to_string(WTERMSIG(st)) : std::string("a non-zero exit status")); buf.pop_back(); return buf; }
+
 // ------------------------------------------------------------------------------------------------ (d) shared node: atomic force accumulation + locked coupling
 static std::string scenario_shared_node(int team) {
     static node shared(0., 0., 0., 0u); shared.force_.reset();
@@ -143,7 +165,7 @@ static std::string scenario_shared_node(int team) {
 static void find_tsan_log(const std::string& variant) { g_tsan_log.clear(); if (variant.rfind("tsan", 0) != 0) return; if (getenv("TSAN_OPTIONS")) { std::string o = getenv("TSAN_OPTIONS"); size_t p = o.find("log_path="); if (p != std::string::npos) g_tsan_log = o.substr(p + 9, o.find_first_of(": ", p + 9) - p - 9); } }
 static void collect_tsan(Result& R) { if (g_tsan_log.empty()) return; std::map<std::string, long> by; long n = count_tsan_reports(by); R["tsan_reports"] = n;
     for (auto& kv : by) { R.tables["tsan_report_sites"][kv.first] = kv.second; R.violation("data-race|" + kv.first, "ThreadSanitizer reports a data race under the explored schedules: " + kv.first + " (" + std::to_string(kv.second) + " reports)", "sub=tsan\nsite=" + kv.first + "\n"); } }
-struct Sub { std::string name; int team, bound; std::function<std::string()> scenario; std::function<std::string(const std::string&)> judge; unsigned long (*hash)(); std::string reference; };
+struct Sub { std::string name; int team, bound; std::function<std::string()> scenario; std::function<std::string(const std::string&)> judge; unsigned long (*hash)(); std::string reference; bool isolated = false;   /* every execution (and the single-threaded reference) in its own forked process: see Explorer::isolate */ };
 
 static void explore(Result& R) {
     const std::string variant = R.args.variant; const bool functional = variant.rfind("plain", 0) == 0;
@@ -152,6 +174,8 @@ static void explore(Result& R) {
     find_tsan_log(variant);
     sc::Mesh ico = sc::icosphere(1); for (int i = 0; i < 4; i++) g_div_meshes.push_back(sc::translated(ico, 4.0 * i, 0, 0)); g_div_type = sc::make_cell_type(0, 3);
     std::vector<Sub> subs;
+    // (h) first: isolated sub-checks fork from a process that has not run the simulation code yet
+    if (CONTACT_MODEL_INDEX == 1 && functional) for (int order : {0, 1}) { Sub h{"run_iteration x2, two cell types with and without bending rigidity, order " + std::to_string(order) + ", isolated processes, T=2", 2, th ? 2 : 1, [order] { return scenario_mixed_types(order, 2); }, nullptr, hash_world, "@serial"}; h.isolated = true; subs.push_back(h); }
     // (c)
     for (int n = 1; n <= (th ? 4 : 3); n++) for (int mask = 0; mask < (1 << n); mask++) { if (__builtin_popcount(mask) > 2) continue; for (int T = 1; T <= 3; T++) { if (!th && T == 3 && n < 3) continue;
         subs.push_back({"peh n=" + std::to_string(n) + " failing=" + std::to_string(mask) + " T=" + std::to_string(T), T, 2, [n, mask] { return scenario_peh(n, mask); }, [n, mask](const std::string& o) { return judge_peh(o, n, mask); }, nullptr, ""}); } }
@@ -177,24 +201,25 @@ static void explore(Result& R) {
     long total_switch = 0, total_exec = 0, total_points = 0, total_pruned = 0; long unit = 0;
     for (Sub& s : subs) { if (!R.args.mine(unit++)) continue; if (R.out_of_time(0.9)) { R.cap("deadline before sub-check " + s.name); break; }
         progress("sub=" + s.name + "\n");
-        if (s.reference == "@serial") { vomp::set_mode(vomp::MODE_SERIAL, 1); s.reference = s.scenario(); std::string again = s.scenario(); if (again != s.reference) { R.internal_error = "sequential reference of '" + s.name + "' is not reproducible"; return; }
+        if (s.reference == "@serial") { vomp::set_mode(vomp::MODE_SERIAL, 1); s.reference = s.isolated ? isolated_call(s.scenario) : s.scenario(); std::string again = s.isolated ? isolated_call(s.scenario) : s.scenario();
+            if (s.reference.rfind("CRASHED", 0) == 0) { R.violation("process-ended-inside-a-parallel-phase|" + s.name.substr(0, s.name.find(' ')), s.name + ": " + s.reference, "sub=" + s.name + "\nteam=1\nschedule=\n"); continue; } if (again != s.reference) { R.internal_error = "sequential reference of '" + s.name + "' is not reproducible"; return; }
             if (s.reference.find("DUPLICATE-ID") != std::string::npos || s.reference.find("BAD-INDEX") != std::string::npos) { R.violation(std::string(s.reference.find("DUPLICATE-ID") != std::string::npos ? "two-cells-carry-the-same-id" : "position-index-differs-from-list-position") + "|" + s.name.substr(0, s.name.find(' ')), s.name + ", single-threaded run: " + s.reference.substr(0, 160), "sub=" + s.name + "\nteam=1\nschedule=\n"); continue; } }
         for (int b = 0; b <= s.bound; b++) {      // iterate the bound: 0, 1, 2, ...
-            vomp::Explorer E; E.team = s.team; E.bound = b; E.scenario = s.scenario; E.deadline_s = std::max(5.0, (R.args.deadline * 0.9 - R.elapsed()) / 2); vomp::set_state_hash(s.hash);
+            vomp::Explorer E; E.isolate = s.isolated; E.team = s.team; E.bound = b; E.scenario = s.scenario; E.deadline_s = std::max(5.0, (R.args.deadline * 0.9 - R.elapsed()) / 2); vomp::set_state_hash(s.hash);
             std::string first_err; std::vector<int> first_sched;
-            E.judge = [&](const vomp::Execution& x) { std::string e; if (x.deadlock) e = "deadlock: no enabled thread while threads are unfinished"; else if (x.diverged) e = "INTERNAL schedule diverged while replaying a prefix"; else if (x.overflow || x.horizon) e = "INTERNAL trace overflow / horizon";
+            E.judge = [&](const vomp::Execution& x) { std::string e; if (x.crashed) e = "process-ended-inside-a-parallel-phase: " + x.outcome; else if (x.deadlock) e = "deadlock: no enabled thread while threads are unfinished"; else if (x.diverged) e = "INTERNAL schedule diverged while replaying a prefix"; else if (x.overflow || x.horizon) e = "INTERNAL trace overflow / horizon";
                 else if (!x.races.empty()) { std::string all = x.races; for (size_t p2 = 0; p2 < all.size();) { size_t q = all.find('\n', p2); if (q == std::string::npos) q = all.size(); if (q > p2) { std::string pair = all.substr(p2, std::min<size_t>(q - p2, 240)); R.tables["lockset_race_pairs"][pair]++;
                         R.violation("lockset-race|" + pair, s.name + ", schedule " + vomp::Explorer::schedule_text(x.choices()) + ": two threads of one team access the same bytes between two team-wide synchronisations, at least one writes, not both atomically, no lock in common: " + pair, "sub=" + s.name + "\nteam=" + std::to_string(s.team) + "\nschedule=" + vomp::Explorer::schedule_text(x.choices()) + "\n"); } p2 = q + 1; } }
                 else if (x.outcome.find("DUPLICATE-ID") != std::string::npos) e = "two-cells-carry-the-same-id: " + x.outcome.substr(0, 120); else if (x.outcome.find("BAD-INDEX") != std::string::npos) e = "position-index-differs-from-list-position: " + x.outcome.substr(0, 120);
                 else if (s.judge) e = s.judge(x.outcome); else if (functional && x.outcome != s.reference) e = "result-differs-from-the-single-threaded-run: '" + x.outcome.substr(0, 200) + "' vs '" + s.reference.substr(0, 200) + "'";
                 if (!e.empty() && first_err.empty()) { first_err = e; first_sched = x.choices(); } };
             E.explore({});
-            total_exec += E.executions; total_switch += E.with_switch; total_points += E.points; total_pruned += E.pruned; R.tables["schedules_per_subcheck"][s.name + " bound=" + std::to_string(b)] = E.executions; R.tables["distinct_outcomes_per_subcheck"][s.name + " bound=" + std::to_string(b)] = (long)E.outcomes.size(); if (s.name.rfind("peh ", 0) == 0 && b == s.bound) { int pn = 0, pm = 0, pt = 0; sscanf(s.name.c_str(), "peh n=%d failing=%d T=%d", &pn, &pm, &pt); for (auto& o : E.outcomes) R.tables["peh_outcomes"][std::to_string(pn) + " " + std::to_string(pm) + " " + std::to_string(pt) + " => " + o.substr(0, o.find("|ran="))]++; }
+            total_exec += E.executions; total_switch += E.with_switch; total_points += E.points; total_pruned += E.pruned; if (s.isolated) R["executions_in_isolated_processes"] += E.executions; R.tables["schedules_per_subcheck"][s.name + " bound=" + std::to_string(b)] = E.executions; R.tables["distinct_outcomes_per_subcheck"][s.name + " bound=" + std::to_string(b)] = (long)E.outcomes.size(); if (s.name.rfind("peh ", 0) == 0 && b == s.bound) { int pn = 0, pm = 0, pt = 0; sscanf(s.name.c_str(), "peh n=%d failing=%d T=%d", &pn, &pm, &pt); for (auto& o : E.outcomes) R.tables["peh_outcomes"][std::to_string(pn) + " " + std::to_string(pm) + " " + std::to_string(pt) + " => " + o.substr(0, o.find("|ran="))]++; }
             if (E.capped) R.cap("sub-check '" + s.name + "' bound " + std::to_string(b) + " stopped at " + std::to_string(E.executions) + " schedules");
             if (R.samples.size() < 6 && !E.sample_schedules.empty()) R.sample("{\"subcheck\":\"" + s.name + "\",\"bound\":" + std::to_string(b) + ",\"schedule\":\"" + vomp::Explorer::schedule_text(E.sample_schedules.back()) + "\",\"schedules_explored\":" + std::to_string(E.executions) + "}");
             if (!first_err.empty()) { if (first_err.rfind("INTERNAL", 0) == 0) { R.internal_error = first_err + " in " + s.name; return; }
                 // replay twice before reporting
-                vomp::Explorer P; P.team = s.team; P.scenario = s.scenario; vomp::set_state_hash(s.hash); vomp::Execution a = P.run(first_sched), bb = P.run(first_sched); if (a.outcome != bb.outcome) { R.internal_error = "schedule does not replay deterministically in " + s.name; return; }
+                vomp::Explorer P; P.isolate = s.isolated; P.team = s.team; P.scenario = s.scenario; vomp::set_state_hash(s.hash); vomp::Execution a = P.run(first_sched), bb = P.run(first_sched); if (a.outcome != bb.outcome) { R.internal_error = "schedule does not replay deterministically in " + s.name; return; }
                 std::string kind = s.name.substr(0, s.name.find(' ')); R.violation(clause_of(first_err) + "|" + kind, s.name + ", preemption bound " + std::to_string(b) + ", schedule " + vomp::Explorer::schedule_text(first_sched) + ": " + first_err, "sub=" + s.name + "\nteam=" + std::to_string(s.team) + "\nschedule=" + vomp::Explorer::schedule_text(first_sched) + "\n"); break; }
             if (E.capped) break; }
     }
